@@ -108,6 +108,8 @@ class ThreadingShim:
     Event = threading.Event
 
 
+CASE_TIMEOUT_S = 45
+ON_HANG = None
 FILESETS = [[0, 5, 64, 130, 7], [300, 300, 300], [16, 16, 16, 16, 16, 16, 1000]]
 
 
@@ -123,12 +125,20 @@ async def run_case(base, sizes, n, use_async, seed, fail_on=None, identical=Fals
     backend = Jitter(Local(d / 'repo'), rnd, use_async, fail_on)
     repo = Repository(backend, concurrent=n, quiet=True, cache_directory=None)
     problems = []
+    async def commands():
+        await repo.init(settings={'encryption': None, 'chunking': {'min_length': 8, 'max_length': 64}})
+        await repo.snapshot(paths=[d / 'src'])
+        await repo.restore(path=d / 'out')
+
     try:
         with lib.quiet():
-            await repo.init(settings={'encryption': None, 'chunking': {'min_length': 8, 'max_length': 64}})
-            await repo.snapshot(paths=[d / 'src'])
-            await repo.restore(path=d / 'out')
+            # every command ends (with its result or with the backend's error) under every schedule: a command that is
+            # still running after CASE_TIMEOUT_S (thousands of times its normal duration) is reported as a hang
+            await asyncio.wait_for(commands(), CASE_TIMEOUT_S)
         failed = None
+    except asyncio.TimeoutError:
+        ON_HANG([{'problem': f'command did not terminate within {CASE_TIMEOUT_S} s (normal duration: well under a second)', 'hang': True,
+                 'after_injected_failure': fail_on is not None}])
     except Exception as e:
         failed = f'{type(e).__name__}: {e}'[:200]
     if fail_on is None:
@@ -158,7 +168,7 @@ def main():
     tier, seed = payload.get('tier', 'quick'), int(payload.get('seed', 0))
     repomod.threading = ThreadingShim          # restore's glock / flocks become yielding locks (no repo edit)
     failures, samples, cases = [], [], 0
-    seeds = range(seed, seed + (6 if tier == 'thorough' else 2))
+    seeds = range(seed, seed + (16 if tier == 'thorough' else 2))
     with lib.scratch('vf_c09_') as base:
         for sizes in FILESETS:
             for n in (1, 2, 3):
@@ -169,6 +179,15 @@ def main():
                                 continue
                             cases += 1
                             case = {'sizes': sizes, 'concurrent': n, 'async_backend': use_async, 'seed': sd, 'fail_on_call': fail_on}
+                            def on_hang(probs, case=case):
+                                # threads of the hung command never end (asyncio.run would wait for them): report and leave
+                                failures.append({'id': f'sched{cases}', 'class': None, 'case': case, 'detail': probs})
+                                lib.emit({'status': 'ok', 'cases': cases, 'distinct': cases, 'failures': failures[:10], 'samples': samples,
+                                          'exhaustive': False, 'reproduced': True, 'stopped_after_hang': True})
+                                sys.stdout.flush()
+                                os._exit(0)
+                            global ON_HANG
+                            ON_HANG = on_hang
                             try:
                                 probs = asyncio.run(run_case(base, sizes, n, use_async, sd, fail_on, identical=(sizes == FILESETS[1])))
                             except Exception as e:
